@@ -15,6 +15,7 @@ MOLS = {
     "H2O": dict(atom="O 0 0 0.1; H 0 0.76 -0.48; H 0 -0.76 -0.48", basis="sto-3g", spin=0),
     "Li": dict(atom="Li 0 0 0", basis="sto-3g", spin=1),
     "OH": dict(atom="O 0 0 0; H 0 0.3 0.93", basis="sto-3g", spin=1),
+    "NH2": dict(atom="N 0 0 0.14; H 0 0.80 -0.49; H 0 -0.80 -0.49", basis="sto-3g", spin=1),
     "NH3": dict(atom="N 0 0 0.12; H 0 0.94 -0.27; H 0.81 -0.47 -0.27; H -0.81 -0.47 -0.27", basis="sto-3g", spin=0),
     "Hed": dict(atom="He 0 0 0", basis={"He": [[0, [1.9, 1.0]], [1, [1.0, 1.0]], [2, [1.4, 1.0]]]}, spin=0),
     "H2": dict(atom="H 0 0 -0.37; H 0 0 0.37", basis={"H": [[0, [1.2, 1.0]], [0, [0.3, 1.0]], [1, [0.8, 1.0]]]}, spin=0),
